@@ -118,8 +118,8 @@ const (
 // configuration
 
 type aclTable struct {
-	DenyReserve map[string]bool `json:"deny_reserve,omitempty"` // "peer/addr"
-	DenyConnect map[string]bool `json:"deny_connect,omitempty"` // "src/addr/dst"
+	DenyReserve                map[string]bool `json:"deny_reserve,omitempty"` // "peer/addr"
+	DenyConnect                map[string]bool `json:"deny_connect,omitempty"` // "src/addr/dst"
 	reserveCalls, connectCalls atomic.Int64
 }
 
